@@ -211,6 +211,30 @@ def sitesJudge (f : List String) (out : String) : String :=
               sitesVerdict os rs
   | _ => "bad:unparsable:case"
 
+/-! ### c15.inspect -/
+
+def parseSpellings (s : String) : Option (List Bytes) := (s.splitOn ",").mapM unq
+
+def inspectModel : List String → String
+  | [ks] => match parseSpellings ks with
+    | none => "bad-case"
+    | some ks =>
+      if ks.any (fun k => !inAddrDomain k || k.isEmpty) then "out-of-model"
+      else match inspect ks with
+        | .error e => errName e
+        | .ok as => "ok " ++ ";".intercalate (as.map fun a => q a.key ++ "|" ++ q a.siteString)
+  | _ => "bad-case"
+
+def inspectJudge (f : List String) (out : String) : String :=
+  match f with
+  | [ks] => match parseSpellings ks with
+    | none => "bad:unparsable:case"
+    | some ks =>
+      if out.startsWith "ok " then Casket.AutoHTTPSSpec.inspectVerdict ks true
+      else if out == "error:dupkey" || out == "error:dupaddr" then Casket.AutoHTTPSSpec.inspectVerdict ks false
+      else "ok"
+  | _ => "bad:unparsable:case"
+
 /-! ### c15.redirect -/
 
 def redirectModel : List String → String
@@ -242,7 +266,10 @@ def streams : List Driver.Stream := [
   { name := "c15.host", model := hostModel, judge := fun _ _ => "ok" },
   { name := "c15.qualify", model := qualifyModel, judge := qualifyJudge },
   { name := "c15.addr", model := addrModel, judge := fun _ _ => "ok" },
+  { name := "c15.inspect", model := inspectModel, judge := inspectJudge },
   { name := "c15.sites", model := sitesModel, judge := sitesJudge },
+  -- the same site sets through the REAL activateHTTPS (reached via the parsing-callback registry): same answer, same judge
+  { name := "c15.activate", model := sitesModel, judge := sitesJudge },
   { name := "c15.redirect", model := redirectModel, judge := redirectJudge }
 ]
 
